@@ -1,19 +1,248 @@
-/- C04 — placeholder theorems (structure of `Spec.contains`); the property theorems replace this file. -/
-import PoetryVerif.Spec.Specifier
+/-
+C04 — Constraint membership agrees with PEP 440 specifier semantics.
+Property theorems only (helper lemmas in Proofs/VRangeSpec.lean).
+
+`Spec.contains` (Spec/Specifier.lean) formalises `packaging.specifiers.SpecifierSet.contains(v,
+prereleases=True)` over the reference order and is tied to packaging by the check's spec-vs-reference
+stream.  `clauseVC op V` is the constraint `parse_single_constraint` builds once the operator and the version
+text have been recognised (token level; the recogniser is tied to the code by the parse stream).
+Proved: for every operator except `!=V.*`, membership equals the reference on every probe that is *regular*
+for the literal (the candidate equals the literal or has a different release — the second and third disjunct of
+the property's guard); for `==V.*` on *every* probe.  Not proved (kept as `*_full_statement`): the first
+disjunct of the guard (final-release literals, candidates of the literal's own release), `!=V.*`, and sets of
+more than two clauses.
+-/
+import PoetryVerif.Proofs.VRangeSpec
+import PoetryVerif.Proofs.VRangeDiff
+
+set_option linter.unusedSimpArgs false
+set_option linter.unusedVariables false
 
 namespace Poetry.C04
-open Poetry Poetry.Spec
+open Poetry Poetry.Spec Version
+
+/-! ## structure of `Spec.contains` -/
 
 /-- the empty specifier set admits every version -/
 theorem contains_nil (v : Version) : contains [] v = true := rfl
 
+/-- a comma is a conjunction -/
 theorem contains_cons (c : Clause) (s : List Clause) (v : Version) :
     contains (c :: s) v = (c.contains v && contains s v) := by
   simp [contains]
 
-/-- a comma is a conjunction -/
 theorem contains_append (s t : List Clause) (v : Version) :
     contains (s ++ t) v = (contains s v && contains t v) := by
   simp [contains, List.all_append]
+
+/-! ## one clause -/
+
+/-- the grammar's side conditions on a clause: a local label only after `==`/`!=`; `~=` needs two release
+components -/
+def ClauseOk (op : SOp) (V : Version) : Prop :=
+  V.wf = true ∧ (op ≠ .eq → op ≠ .ne → V.loc = none) ∧ (op = .compat → 2 ≤ V.precision)
+
+/-- **membership of one clause equals the reference**, for every operator but the wildcards, on every probe
+that is regular for the literal (candidate equals the literal, or is of a different release). -/
+theorem clause_membership_eq_ref (op : SOp) (V v : Version) (hok : ClauseOk op V)
+    (hop : op ≠ .eqStar ∧ op ≠ .neStar) (hv : v.wf = true) (hreg : Reg1 v V) :
+    ∃ c, clauseVC op V = .ok c ∧ c.allows v = .ok (Clause.contains ⟨op, V⟩ v) := by
+  obtain ⟨hV, hloc, hprec⟩ := hok
+  cases op with
+  | eq =>
+    refine ⟨_, rfl, ?_⟩
+    simp only [VC.allows, RC.allows, Clause.contains]
+    congr 1; apply bool_eq_of_iff
+    rw [RC.ver_allows_iff V v hV hv hreg, spec_eq hV hv hreg]
+  | ne =>
+    obtain ⟨b, hb, hiff⟩ := ne_allows V v hV hv hreg
+    refine ⟨_, rfl, ?_⟩
+    rw [hb]; congr 1; apply bool_eq_of_iff
+    simp only [Clause.contains]
+    rw [hiff, spec_ne hV hv hreg]
+  | lt =>
+    refine ⟨_, rfl, ?_⟩
+    simp only [VC.allows, RC.allows, Clause.contains]
+    congr 1; apply bool_eq_of_iff
+    rw [upper_allows V v false hV hv hreg, spec_lt hV (hloc (by simp) (by simp)) hv hreg]; simp
+  | le =>
+    refine ⟨_, rfl, ?_⟩
+    simp only [VC.allows, RC.allows, Clause.contains]
+    congr 1; apply bool_eq_of_iff
+    rw [upper_allows V v true hV hv hreg, spec_le hV hv hreg]; simp
+  | gt =>
+    refine ⟨_, rfl, ?_⟩
+    simp only [VC.allows, RC.allows, Clause.contains]
+    congr 1; apply bool_eq_of_iff
+    rw [lower_allows V v false hV hv hreg, spec_gt hV hv hreg]; simp
+  | ge =>
+    refine ⟨_, rfl, ?_⟩
+    simp only [VC.allows, RC.allows, Clause.contains]
+    congr 1; apply bool_eq_of_iff
+    rw [lower_allows V v true hV hv hreg, spec_ge hV hv]; simp
+  | compat =>
+    refine ⟨_, rfl, ?_⟩
+    simp only [VC.allows, RC.allows, Clause.contains]
+    congr 1
+    exact compat_allows V v hV (hprec rfl) hv hreg
+  | eqStar => exact absurd rfl hop.1
+  | neStar => exact absurd rfl hop.2
+
+example : ∃ V v, Version.parse "1!2.3.post4" = .ok V ∧ Version.parse "1!2.3.1a1+x" = .ok v ∧
+    ClauseOk .gt V ∧ v.wf = true ∧ Reg1 v V :=
+  ⟨_, _, rfl, rfl, ⟨by decide, fun _ _ => by decide, fun h => by cases h⟩, by decide, Or.inr (by decide)⟩
+
+/-- **`==V.*` equals the reference on every candidate** (no guard): every pre/post/dev/local form of every
+release. -/
+theorem wildcard_membership_eq_ref (V v : Version) (hV : V.wf = true) (hfin : V.isFinal = true)
+    (hv : v.wf = true) :
+    ∃ c, clauseVC .eqStar V = .ok c ∧ c.allows v = .ok (Clause.contains ⟨.eqStar, V⟩ v) := by
+  refine ⟨_, (eqStar_range V hfin).1, ?_⟩
+  simp only [VC.allows, RC.allows, Clause.contains]
+  congr 1
+  exact eqStar_allows V v hfin hV hv
+
+example : ∃ V v, Version.parse "1.2" = .ok V ∧ Version.parse "1.3.dev0+l" = .ok v ∧ V.isFinal = true ∧
+    Clause.contains ⟨.eqStar, V⟩ v = false := ⟨_, _, rfl, rfl, by decide, by decide⟩
+
+/-! ## two clauses: the comma -/
+
+/-- the one-member constraints of the ordered comparisons and `==` -/
+def memberOf : SOp → Version → Option RC
+  | .eq, V => some (.ver V)
+  | .lt, V => some (.rng ⟨none, some V, false, false⟩)
+  | .le, V => some (.rng ⟨none, some V, false, true⟩)
+  | .gt, V => some (.rng ⟨some V, none, false, false⟩)
+  | .ge, V => some (.rng ⟨some V, none, true, false⟩)
+  | _, _ => none
+
+theorem memberOf_spec (op : SOp) (V : Version) (m : RC) (h : memberOf op V = some m) :
+    clauseVC op V = .ok (.single m) ∧ (∀ e ∈ m.bounds, e = V) ∧ (V.wf = true → m.WF) := by
+  cases op <;> simp [memberOf] at h <;> subst h <;>
+    refine ⟨rfl, by intro e he; simp [RC.bounds, RC.view, VRange.bounds, RC.min, RC.max] at he; simp [he], ?_⟩
+  · intro h; exact h
+  all_goals
+    intro h
+    refine ⟨by intro e he; simp [VRange.bounds] at he; subst he; exact h, ?_⟩
+    intro m M hm hM; simp at hm hM
+
+/-- **a two-clause specifier set** of ordered comparisons / `==` (what `parse_constraint` does with the
+comma is `intersect`): defined, and membership equals the reference conjunction on probes regular for both
+literals. -/
+theorem two_clause_membership_eq_ref (o1 o2 : SOp) (V1 V2 v : Version) (m1 m2 : RC)
+    (h1 : memberOf o1 V1 = some m1) (h2 : memberOf o2 V2 = some m2)
+    (hok1 : ClauseOk o1 V1) (hok2 : ClauseOk o2 V2) (hne1 : o1 ≠ .eq → V1.loc = none) (hne2 : o2 ≠ .eq → V2.loc = none)
+    (hv : v.wf = true) (hr1 : Reg1 v V1) (hr2 : Reg1 v V2) :
+    ∃ c, VC.intersect (.single m1) (.single m2) = .ok c ∧
+      c.allows v = .ok (contains [⟨o1, V1⟩, ⟨o2, V2⟩] v) := by
+  obtain ⟨e1, b1, w1⟩ := memberOf_spec o1 V1 m1 h1
+  obtain ⟨e2, b2, w2⟩ := memberOf_spec o2 V2 m2 h2
+  have hop1 : o1 ≠ .eqStar ∧ o1 ≠ .neStar := by constructor <;> (intro e; subst e; simp [memberOf] at h1)
+  have hop2 : o2 ≠ .eqStar ∧ o2 ≠ .neStar := by constructor <;> (intro e; subst e; simp [memberOf] at h2)
+  obtain ⟨c1, hc1, a1⟩ := clause_membership_eq_ref o1 V1 v hok1 hop1 hv hr1
+  obtain ⟨c2, hc2, a2⟩ := clause_membership_eq_ref o2 V2 v hok2 hop2 hv hr2
+  rw [e1] at hc1; rw [e2] at hc2
+  cases hc1; cases hc2
+  simp only [VC.allows, Except.ok.injEq] at a1 a2
+  have hnl : ∀ r x, (m1 = .rng r ∧ m2 = .ver x) ∨ (m1 = .ver x ∧ m2 = .rng r) → ¬ RC.LocalMinCase r x := by
+    rintro r x hx ⟨_, m, hm, hml, _⟩
+    rcases hx with ⟨hr, _⟩ | ⟨_, hr⟩
+    · subst hr
+      have hmem : m = V1 := b1 m (by simp [RC.bounds, RC.view, VRange.bounds, RC.min, hm])
+      have : o1 ≠ .eq := by intro e; subst e; simp [memberOf] at h1
+      simp [isLocal, hmem, hne1 this] at hml
+    · subst hr
+      have hmem : m = V2 := b2 m (by simp [RC.bounds, RC.view, VRange.bounds, RC.min, hm])
+      have : o2 ≠ .eq := by intro e; subst e; simp [memberOf] at h2
+      simp [isLocal, hmem, hne2 this] at hml
+  obtain ⟨c, hc, hex⟩ := RC.intersect_exact m1 m2 (w1 hok1.1) (w2 hok2.1) hnl
+  refine ⟨c, hc, ?_⟩
+  have hreg : Regular (m1.bounds ++ m2.bounds) v := by
+    intro e he
+    simp only [List.mem_append] at he
+    rcases he with he | he
+    · rw [b1 e he]
+      rcases hr1 with h | h
+      · exact Or.inl ((vk_eq_iff _ _).1 h)
+      · exact Or.inr h
+    · rw [b2 e he]
+      rcases hr2 with h | h
+      · exact Or.inl ((vk_eq_iff _ _).1 h)
+      · exact Or.inr h
+  rw [hex v hv hreg, a1, a2]
+  simp [contains]
+
+/-! ## Poetry's own operators -/
+
+/-- **a bare version means equality**: `parse_single_constraint("V")` and `"==V"` build the same constraint
+(token level: `C15.parse_bare_version`), whose membership is the reference `==V` on regular probes. -/
+theorem bare_is_eq (V v : Version) (hV : V.wf = true) (hv : v.wf = true) (hreg : Reg1 v V) :
+    (VC.single (.ver V)).allows v = .ok (Clause.contains ⟨.eq, V⟩ v) := by
+  obtain ⟨c, hc, h⟩ := clause_membership_eq_ref .eq V v ⟨hV, fun h => absurd rfl h, fun h => by cases h⟩
+    ⟨by simp, by simp⟩ hv hreg
+  cases hc; exact h
+
+/-- **`^V` is `[V, next breaking)`** (the range `parse_single_constraint` builds, `C15.parse_caret`): a probe
+regular for `V` is admitted iff it is at least `V` and below every version of the next breaking release. -/
+theorem caret_range (V v : Version) (hV : V.wf = true) (hNwf : V.nextBreaking.wf = true) (hv : v.wf = true)
+    (hreg : Reg1 v V) :
+    (VRange.halfOpen V V.nextBreaking).allows v = true ↔
+      vk V ≤ vk v ∧ vk v < vk V.nextBreaking.firstDevrelease :=
+  halfOpen_allows_iff V V.nextBreaking v hV hNwf (nextBreaking_isFinal V)
+    ((vk_lt_iff _ _).2 (nextBreaking_gt V hV)) hv hreg
+
+/-- **`~V` is `[V, next minor)`** (next major when V has one release component) -/
+theorem tilde_range (V v : Version) (hV : V.wf = true) (hv : v.wf = true) (hreg : Reg1 v V)
+    (H : Version) (hH : H = if V.precision == 1 then V.stable.nextMajor else V.stable.nextMinor)
+    (hHwf : H.wf = true) :
+    (VRange.halfOpen V H).allows v = true ↔ vk V ≤ vk v ∧ vk v < vk H.firstDevrelease := by
+  have hfin : H.isFinal = true := by rw [hH]; split <;> rfl
+  have hlt : vk V < vk H := by
+    rw [hH, vk_lt_iff]; split
+    · exact stable_nextMajor_gt V hV
+    · exact stable_nextMinor_gt V hV
+  exact halfOpen_allows_iff V H v hV hHwf hfin hlt hv hreg
+
+/-- **`a || b` is the union**: whenever `VersionUnion.of` returns, the result admits a regular probe iff one
+of the alternatives' members does (C05 `union_of_preserves_membership_partial`). -/
+theorem union_is_or (a b : VC) (res : VC) (h : VC.unionOf [a, b] = .ok res) (hg : Good (a.flatten ++ b.flatten))
+    (p : Version) (hp : p.wf = true) (hreg : Regular (a.bounds ++ b.bounds) p) :
+    res.allowsPlain p = (a.allowsPlain p || b.allowsPlain p) := by
+  have hflat : [a, b].flatMap VC.flatten = a.flatten ++ b.flatten := by simp
+  unfold VC.unionOf at h
+  rw [hflat] at h
+  obtain ⟨_, _, g3⟩ := unionOfFlat_sem _ res h hg
+  rw [g3 p hp (by
+    intro e he
+    apply hreg e
+    simp only [boundsOf, List.flatMap_append, List.mem_append] at he
+    simp only [List.mem_append, VC.bounds_eq_flatMap]
+    exact he)]
+  simp [anyAllows, VC.allowsPlain, List.any_append]
+
+/-! ## the property at full strength -/
+
+/-- the property's guard, literally -/
+def InDomain (s : List Clause) (v : Version) : Prop :=
+  (∀ c ∈ s, c.lit.isFinal = true ∧ c.op ≠ .ne ∧ c.op ≠ .neStar) ∨
+  (∀ c ∈ s, relKey v ≠ relKey c.lit) ∨
+  (∃ c ∈ s, Version.cmp v c.lit = .eq)
+
+/-- what `parse_constraint` computes for a comma-joined set: the clauses' constraints intersected left to
+right -/
+def setVC : List Clause → PyM VC
+  | [] => .ok VC.any
+  | c :: cs => do
+    let first ← clauseVC c.op c.lit
+    cs.foldlM (fun acc d => do VC.intersect acc (← clauseVC d.op d.lit)) first
+
+/-- C04 at full strength: membership equals the reference for every specifier set and candidate in the
+guard.  Proved: single clauses on regular candidates (`clause_membership_eq_ref`, `wildcard_membership_eq_ref`
+without guard) and two-clause sets of ordered comparisons (`two_clause_membership_eq_ref`).  Known to need two
+more hypotheses (check stream, known findings "sibling-of-another-literal", "local-min-intersect"): regularity
+per literal, and no `==V` clause meeting a bound that is a local build of `V`. -/
+def membership_eq_ref_full_statement : Prop :=
+  ∀ (s : List Clause) (v : Version), (∀ c ∈ s, ClauseOk c.op c.lit) → v.wf = true → InDomain s v →
+    ∃ c, setVC s = .ok c ∧ c.allows v = .ok (contains s v)
 
 end Poetry.C04
